@@ -16,6 +16,7 @@
 -/
 import ASV.Model.WriteSafety
 namespace ASV.WriteSafety
+open ASV.PosixPath (Path)
 
 /-! ### faults, irrespective of where the conversion would meet them -/
 
@@ -71,9 +72,9 @@ end
 
 def ModSpec.faulty : ModSpec → Bool
   | .none => false
-  | .mod v => v.faulty
-  | .raises _ => true
-  | .invalid => true
+  | .mod _ v => v.faulty
+  | .raises _ _ => true
+  | .invalid _ => true
 
 def dictFaulty (m : ModDict) : Bool := m.any fun kv => kv.2.faulty
 
@@ -85,8 +86,8 @@ def conversionFault (records : List RecSpec) (results : List ModDict) : Bool :=
 /-- a conversion *call* raises (`to_json()` of a module or the record's own conversion, a value of
     the wrong type, a missing `results[i]`) — the only faults when nothing is serialised -/
 def ModSpec.raising : ModSpec → Bool
-  | .raises _ => true
-  | .invalid => true
+  | .raises _ _ => true
+  | .invalid _ => true
   | _ => false
 
 def callFault (records : List RecSpec) (results : List ModDict) : Bool :=
@@ -115,7 +116,7 @@ def injectAt : List ModDict → Nat → Nat → ModSpec → List ModDict
 /-- `"modules": {name: to_json(), …}` of one record, `None` entries left out -/
 def modsDoc : ModDict → Bytes
   | [] => []
-  | (k, .mod v) :: rest => .key k :: denote v ++ modsDoc rest
+  | (k, .mod _ v) :: rest => .key k :: denote v ++ modsDoc rest
   | _ :: rest => modsDoc rest
 
 def recordsDoc : List ModDict → Bytes
@@ -136,6 +137,7 @@ def Ev.touchesFiles : Ev → Bool
   | .write _ => true
   | .remove _ => true
   | .mkdir => true
+  | .mkdirSub _ => true
   | _ => false
 
 def Ev.isConversion : Ev → Bool
@@ -185,9 +187,32 @@ def specDumpRecords (records : List RecSpec) (results : List ModDict) (h : Handl
 
 /-! ### the output directory -/
 
+/-- the lexical identity of a path: how many leading slashes survive, and the components that remain
+    after resolving `.`, `..` and repeated slashes against the working directory -/
+def denotes (cwd q : Path) : Nat × List Path :=
+  (PosixPath.leadSlashes (PosixPath.absArg cwd q),
+   PosixPath.normComps true (PosixPath.splitSlash (PosixPath.absArg cwd q)))
+
+/-- the entry is the file the run logs to: a log file was requested and both paths denote the same
+    place — not merely similar names, not a directory above it -/
+def isLogFile (p : PrepIn) (e : Entry) : Bool :=
+  p.logfile != "" && decide (denotes p.cwd.toList (entryPath p e) = denotes p.cwd.toList p.logfile.toList)
+
 /-- antiSMASH's own input copy (the directory `input`) or its log file -/
-def allowed (logName : Option String) (e : Entry) : Bool :=
-  (e.name == "input" && e.isDir) || logName == some e.name
+def allowed (p : PrepIn) (e : Entry) : Bool :=
+  (e.name == "input" && e.isDir) || isLogFile p e
+
+/-- a name as `os.listdir` yields it -/
+def plainName (n : Path) : Bool := n != [] && n != PosixPath.dot && n != PosixPath.dotdot && !n.contains '/'
+
+/-- what the operating system and the function's own guard (`if not name: name = …`) guarantee:
+    the working directory is absolute, the directory argument is not empty, listing entries are
+    plain names -/
+def PrepIn.WF (p : PrepIn) : Bool :=
+  PosixPath.isabs p.cwd.toList && !p.name.toList.isEmpty &&
+    match p.target with
+    | .dir es => es.all fun e => plainName e.name.toList
+    | _ => true
 
 /-- documented pattern: `<anything>.region<three characters>.gbk`, not a hidden file -/
 def RegionGbkName (n : String) : Prop :=
@@ -200,7 +225,7 @@ def specAccepts (p : PrepIn) : Bool :=
   match p.target with
   | .absent => true
   | .file => false
-  | .dir es => reuseMode p || es.all (allowed p.logName)
+  | .dir es => reuseMode p || es.all (allowed p)
 
 /-- a refusal leaves everything as it was and attempts nothing -/
 def refusedUntouched (p : PrepIn) (o : PrepOut) : Bool :=
@@ -242,5 +267,22 @@ def specPipeline (p : PipeIn) (o : PrepOut) : Bool :=
       && decide (o.target = .dir ((preparedDir p.prep).withFile p.jsonName (expectedFull p.results)))
       && (o.trace.dropWhile (fun e => e != .openW p.jsonName)
             == [.openW p.jsonName, .write p.jsonName, .annotated, .outputsWritten])
+
+
+/-! ### the whole of `run_antismash` -/
+
+/-- the call as `_run_antismash` finds it: logging has already created / appended to the log file -/
+def afterLogging (p : PrepIn) : PrepIn := { p with target := (setupLogging (logPlace p) p.target).1 }
+
+/-- apart from what setting up the log file does (always the same, accepted or not), and the logged
+    error message on a refusal, the run is the run of `specPipeline` on the directory logging left -/
+def specRun (r : RunIn) (o : PrepOut) : Bool :=
+  let p := (effective r.call).1
+  let s := setupLogging (logPlace p) p.target
+  let rest := o.trace.drop s.2.length
+  let refusedTail := o.err == some inputError
+  let inner := if refusedTail then rest.dropLast else rest
+  (o.trace.take s.2.length == s.2) && (!refusedTail || rest.getLast? == some .logErr) &&
+    specPipeline ⟨afterLogging p, r.results, r.jsonName⟩ ⟨inner, o.err, o.target⟩
 
 end ASV.WriteSafety
